@@ -34,6 +34,13 @@
 (*   crossSourceClaim      the same name is claimed in the repository and as a legacy mapping   *)
 (*   staleRegistryCache    a legacy mapping deleted on another node stays in this registry      *)
 (*   caseVariantClaim      a second spelling (letter case) of an owned name is claimed          *)
+(* Deviations that the present code does not have; they are modelled so that TLC rejects them   *)
+(* (invariants OnlyHolderUnlocks / LockHeld / LookupPure) and so that the generator can emit     *)
+(* schedules that follow such code (jobs "legacy:dev:*", Deviate # {}):                          *)
+(*   foreignUnlock  ("conflictUnlock" in Deviate)  a delete that lost the delete claim (Conflict) *)
+(*                  removes the claim marker of the delete that holds it                          *)
+(*   lookupWrites   ("lazyClean" in Deviate)  LookupByDomain deletes an index entry whose record  *)
+(*                  it does not find - e.g. the entry a running CreateMapping has just claimed    *)
 EXTENDS Naturals, Sequences, FiniteSets, TLC, Json
 
 CONSTANTS ProcsC1, ProcsC2,  \* API-call processes acting with the proven identity of client c1 / c2
@@ -51,6 +58,9 @@ CONSTANTS ProcsC1, ProcsC2,  \* API-call processes acting with the proven identi
           Fix,               \* TRUE: model of the repaired DeleteMapping / rollback
           Spell,             \* host / subdomain spellings in use: subset of {"plain", "port", "upper", "dot", "v6", "v6port"}
           CaseFold,          \* TRUE: model of the repaired index key (lower-cased full domain)
+          OnlyDelete,        \* processes that only issue Delete calls / only Create calls ({} = no restriction);
+          OnlyCreate,        \*   used by the three-deleters-one-claimant configuration
+          Deviate,           \* named deviations of the code that are switched on (see below); {} = the code as it is
           Emit
 
 VARIABLES nextId, index, rec, clist, dlock,   \* the store
@@ -101,7 +111,7 @@ Init == /\ nextId = PreN
         /\ index = [k \in Keys |-> IF Pre /\ k = FirstName THEN 1 ELSE 0]
         /\ rec = [i \in Ids |-> IF Pre /\ i = 1 THEN [c |-> "c1", n |-> FirstName, k |-> FirstName, st |-> "active"] ELSE NoRec]
         /\ clist = [c \in Clients |-> IF Pre /\ c = "c1" THEN {1} ELSE {}]
-        /\ dlock = [i \in Ids |-> FALSE]
+        /\ dlock = [i \in Ids |-> "none"]          \* delete claim marker of mapping i: the process holding it
         /\ reg = [n \in Names |-> NoLeg] /\ cc = [n \in Names |-> NoLeg] /\ nleg = 0
         /\ pc = [p \in Procs |-> "idle"] /\ cur = [p \in Procs |-> NoCur]
         /\ tmp = [p \in Procs |-> NoRec] /\ done = [p \in Procs |-> 0]
@@ -137,19 +147,19 @@ Call(p, c, first) ==
   /\ UNCHANGED <<okc, failc, deld, delok, inact, meta, bad, dev>>
 
 CallCreate(p, n, sp) ==
-  /\ p \in CProcs /\ done[p] < MaxOps /\ "Create" \in Kinds /\ sp \in Spell \cap {"plain", "upper"}
+  /\ p \in CProcs \ OnlyDelete /\ done[p] < MaxOps /\ "Create" \in Kinds /\ sp \in Spell \cap {"plain", "upper"}
   /\ Call(p, [NoCur EXCEPT !.op = "Create", !.n = n, !.k = KeyOf(sp, n), !.st = "active"], IF p \in HandlerProcs THEN "C_pre" ELSE "C_id")
   /\ snap' = snap
   /\ Log(CallSt(p, "Call", "Create", Cl(p), n, 0, "-", sp))
 
 CallDelete(p, i) ==
-  /\ p \in CProcs /\ done[p] < MaxOps /\ "Delete" \in Kinds /\ i \in Known
+  /\ p \in CProcs \ OnlyCreate /\ done[p] < MaxOps /\ "Delete" \in Kinds /\ i \in Known
   /\ Call(p, [NoCur EXCEPT !.op = "Delete", !.id = i, !.res = "ok"], "D_get")
   /\ snap' = snap
   /\ Log(CallSt(p, "Call", "Delete", Cl(p), "-", i, "-", "-"))
 
 CallUpdate(p, i, s) ==     \* only the owner's side ever updates (expiry / status); no client-facing path
-  /\ p \in CProcs /\ done[p] < MaxOps /\ "Update" \in Kinds /\ i \in okc /\ meta[i].c = Cl(p)
+  /\ p \in CProcs \ (OnlyCreate \cup OnlyDelete) /\ done[p] < MaxOps /\ "Update" \in Kinds /\ i \in okc /\ meta[i].c = Cl(p)
   /\ Call(p, [NoCur EXCEPT !.op = "Update", !.id = i, !.st = s], "U_get")
   /\ snap' = snap
   /\ Log(CallSt(p, "Call", "Update", Cl(p), "-", i, s, "-"))
@@ -294,10 +304,21 @@ DList(p) ==  \* RemoveFromList(client:<c>, id); errors are ignored by the code
 \* repaired code only: the delete claim, the re-read under the claim, the conditional index delete
 DLock(p) ==  \* SetNX(lock:<id>)
   /\ pc[p] = "D_lock"
-  /\ IF dlock[cur[p].id]
-     THEN Return(p) /\ dlock' = dlock /\ Log(St(p, "DelLock", FALSE, "fail"))       \* another delete of this mapping is running
-     ELSE Goto(p, "D_get2") /\ dlock' = [dlock EXCEPT ![cur[p].id] = TRUE] /\ Log(St(p, "DelLock", FALSE, "-"))
+  /\ IF dlock[cur[p].id] # "none"
+     THEN /\ dlock' = dlock                    \* Conflict: another delete of this mapping is running; the marker is left alone
+          /\ IF "conflictUnlock" \in Deviate THEN Goto(p, "D_cunlock") /\ Log(St(p, "DelLock", FALSE, "-"))
+                                              ELSE Return(p) /\ Log(St(p, "DelLock", FALSE, "fail"))
+     ELSE Goto(p, "D_get2") /\ dlock' = [dlock EXCEPT ![cur[p].id] = p] /\ Log(St(p, "DelLock", FALSE, "-"))
   /\ UNCHANGED <<nextId, index, rec, clist, cur, tmp, fault>> /\ U_leg /\ U_ghost
+
+\* deviation foreignUnlock: the loser of the claim deletes the marker (Delete(lock:<id>)) before it reports Conflict
+DCUnlock(p) ==
+  /\ pc[p] = "D_cunlock"
+  /\ dlock' = [dlock EXCEPT ![cur[p].id] = "none"]
+  /\ dev' = IF dlock[cur[p].id] \notin {"none", p} THEN dev \cup {"foreignUnlock"} ELSE dev
+  /\ Return(p)
+  /\ UNCHANGED <<nextId, index, rec, clist, cur, tmp, fault, okc, failc, deld, delok, inact, meta, snap, bad>> /\ U_leg
+  /\ Log(St(p, "DelCUnlock", FALSE, "fail"))
 
 DGet2(p) ==  \* GetMapping under the claim
   /\ pc[p] = "D_get2"
@@ -313,19 +334,20 @@ DIGet(p) ==  \* Get(index:<name>): delete it only if it still names this mapping
 
 DUnlock(p) == \* Delete(lock:<id>)
   /\ pc[p] = "D_unlock"
-  /\ dlock' = [dlock EXCEPT ![cur[p].id] = FALSE]
+  /\ dlock' = [dlock EXCEPT ![cur[p].id] = "none"]
+  /\ dev' = IF dlock[cur[p].id] \notin {"none", p} THEN dev \cup {"foreignUnlock"} ELSE dev
   /\ Return(p)
   /\ delok' = IF cur[p].res = "ok" /\ cur[p].id \in deld THEN delok \cup {cur[p].id} ELSE delok
-  /\ UNCHANGED <<nextId, index, rec, clist, cur, tmp, fault, okc, failc, deld, inact, meta, snap, bad, dev>> /\ U_leg
+  /\ UNCHANGED <<nextId, index, rec, clist, cur, tmp, fault, okc, failc, deld, inact, meta, snap, bad>> /\ U_leg
   /\ Log(St(p, "DelUnlock", FALSE, cur[p].res))
 
 \* repaired code only: CreateMapping's rollback after a failed AppendToList runs the same guarded cascade
 RLock(p) ==
   /\ pc[p] = "R_lock"
-  /\ IF dlock[cur[p].id]
+  /\ IF dlock[cur[p].id] # "none"
      THEN /\ Return(p) /\ dlock' = dlock /\ failc' = failc \cup {cur[p].id}      \* a delete of this mapping is running: it cleans up
           /\ Log(St(p, "RbLock", FALSE, "fail"))
-     ELSE /\ Goto(p, "R_get") /\ dlock' = [dlock EXCEPT ![cur[p].id] = TRUE] /\ failc' = failc
+     ELSE /\ Goto(p, "R_get") /\ dlock' = [dlock EXCEPT ![cur[p].id] = p] /\ failc' = failc
           /\ Log(St(p, "RbLock", FALSE, "-"))
   /\ UNCHANGED <<nextId, index, rec, clist, cur, tmp, fault, okc, deld, delok, inact, meta, snap, bad, dev>> /\ U_leg
 
@@ -365,10 +387,11 @@ RList(p) ==
 
 RUnlock(p) ==
   /\ pc[p] = "R_unlock"
-  /\ dlock' = [dlock EXCEPT ![cur[p].id] = FALSE]
+  /\ dlock' = [dlock EXCEPT ![cur[p].id] = "none"]
+  /\ dev' = IF dlock[cur[p].id] \notin {"none", p} THEN dev \cup {"foreignUnlock"} ELSE dev
   /\ failc' = failc \cup {cur[p].id}
   /\ Return(p)
-  /\ UNCHANGED <<nextId, index, rec, clist, cur, tmp, fault, okc, deld, delok, inact, meta, snap, bad, dev>> /\ U_leg
+  /\ UNCHANGED <<nextId, index, rec, clist, cur, tmp, fault, okc, deld, delok, inact, meta, snap, bad>> /\ U_leg
   /\ Log(St(p, "RbUnlock", FALSE, "fail"))
 
 \* ---- UpdateMapping ----------------------------------------------------------------------------
@@ -420,7 +443,9 @@ LRec(q) ==   \* Get(mapping:<id>), status / expiry check
   /\ LET i == cur[q].id
          r == rec[i]
          n == cur[q].n IN
-     IF ~Has(r) THEN Return(q) /\ Fallback(q, cur[q].fb)
+     IF ~Has(r) /\ "lazyClean" \in Deviate
+       THEN Goto(q, "L_clean") /\ reg' = reg /\ bad' = bad /\ Log(St(q, "L_rec", FALSE, "-"))
+     ELSE IF ~Has(r) THEN Return(q) /\ Fallback(q, cur[q].fb)
      ELSE IF r.st # "active" THEN /\ Return(q) /\ reg' = reg /\ bad' = bad /\ Log(St(q, "L_rec", FALSE, "reject"))
      ELSE /\ Return(q) /\ reg' = reg
           /\ bad' = bad \cup (IF i \in snap[q].dead THEN {"routeDead"} ELSE {})
@@ -428,6 +453,15 @@ LRec(q) ==   \* Get(mapping:<id>), status / expiry check
                         \cup (IF r.n # n \/ meta[i].c # r.c THEN {"routeForeign"} ELSE {})
           /\ Log(St(q, "L_rec", FALSE, "route:" \o ToString(i)))
   /\ UNCHANGED <<cur, tmp, fault, cc, nleg, legdead, okc, failc, deld, delok, inact, meta, snap, dev>> /\ U_store
+
+\* deviation lookupWrites: the lookup removes the "stale" index entry (Delete(index:<name>)) - a lookup must
+\* leave the store unchanged (LookupPure)
+LClean(q) ==
+  /\ pc[q] = "L_clean"
+  /\ index' = [index EXCEPT ![cur[q].k] = 0]
+  /\ dev' = dev \cup {"lookupWrites"}
+  /\ Return(q) /\ Fallback(q, cur[q].fb)
+  /\ UNCHANGED <<nextId, rec, clist, dlock, cur, tmp, fault, cc, nleg, legdead, okc, failc, deld, delok, inact, meta, snap>>
 
 \* ---- legacy HTTP mappings (management API; atomic) -------------------------------------------
 \* here = TRUE: the call is served by the proxy node (its registry is updated as well)
@@ -458,11 +492,11 @@ Next == \/ \E p \in CProcs : \/ \E n \in Names, sp \in Spell : CallCreate(p, n, 
                              \/ CPre(p) \/ CId(p) \/ CNx(p) \/ CRec(p) \/ CList(p) \/ CRbRec(p) \/ CRbIdx(p)
                              \/ CUGet(p) \/ CUSet(p)
                              \/ DGet(p) \/ DIdx(p) \/ DRec(p) \/ DList(p)
-                             \/ DLock(p) \/ DGet2(p) \/ DIGet(p) \/ DUnlock(p)
+                             \/ DLock(p) \/ DCUnlock(p) \/ DGet2(p) \/ DIGet(p) \/ DUnlock(p)
                              \/ RLock(p) \/ RGet(p) \/ RIGet(p) \/ RIdx(p) \/ RRec(p) \/ RList(p) \/ RUnlock(p)
                              \/ UGet(p) \/ USet(p)
         \/ \E q \in LookProcs : \/ \E n \in Names, sp \in Spell : CallLookup(q, n, sp)
-                                \/ LIdx(q) \/ LRec(q)
+                                \/ LIdx(q) \/ LRec(q) \/ LClean(q)
         \/ \E c \in Clients, n \in Names, h \in BOOLEAN : LegCreate(c, n, h)
         \/ \E n \in Names, h \in BOOLEAN : LegDelete(n, h)
 Spec == Init /\ [][Next]_vars
@@ -481,7 +515,16 @@ OneOwner == \A n \in Names : Cardinality(Owners(n)) + (IF cc[n] # NoLeg THEN 1 E
 RouteOK == bad = {}
 
 \* (3) only the owner's delete changes anything
-OwnerOnly == \A p \in CProcs : pc[p] \in {"D_idx", "D_rec", "D_list", "D_lock", "D_get2", "D_iget", "D_unlock"} => tmp[p].c = Cl(p)
+OwnerOnly == \A p \in CProcs : pc[p] \in {"D_idx", "D_rec", "D_list", "D_lock", "D_cunlock", "D_get2", "D_iget", "D_unlock"} => tmp[p].c = Cl(p)
+
+\* (3b) the delete claim: whoever is inside the guarded cascade of mapping i holds its marker (so at most one
+\*      process is), a Conflict outcome leaves the marker alone, only the holder removes it
+InCascade(p) == Fix /\ pc[p] \in {"D_get2", "D_iget", "D_idx", "D_rec", "D_list", "D_unlock", "R_get", "R_iget", "R_idx", "R_rec", "R_list", "R_unlock"}
+LockHeld == \A p \in CProcs : InCascade(p) => dlock[cur[p].id] = p
+OnlyHolderUnlocks == "foreignUnlock" \notin dev
+
+\* (3c) a lookup leaves the store unchanged
+LookupPure == "lookupWrites" \notin dev
 
 \* (4) quiescent store: no index entry without its record (name unclaimable for ever), every live
 \*     mapping is reachable through the index and listed for its owner
